@@ -20,14 +20,14 @@ tvars == <<vars, tr, l>>
 KFAll == {"mysqlDelNoRoot", "mysqlLikeRaw", "mysqlMsgScan", "etcdMsgRoot"}
 KFNames == {n \in KFAll : KFOn(n)}
 FOf(S) == [delNoRoot |-> "mysqlDelNoRoot" \in S, likeRaw |-> "mysqlLikeRaw" \in S,
-           msgAllRaw |-> "mysqlMsgScan" \in S, etcdMsgShared |-> "etcdMsgRoot" \in S]
+           msgAllRaw |-> "mysqlMsgScan" \in S, etcdMsgShared |-> "etcdMsgRoot" \in S, posKeyPos |-> FALSE]
 
 PosOf(r) == [root |-> r.root, task |-> r.task, coll |-> r.coll, name |-> r.name,
              p |-> ToSet(r.p), o |-> ToSet(r.o), g |-> ToSet(r.g)]
 DbOf(e) == [i |-> ToSet(e.dbi), p |-> {PosOf(r) : r \in ToSet(e.dbp)}, m |-> ToSet(e.dbm)]
 OpOf(e) == [op |-> e.op, root |-> e.root, task |-> e.task, coll |-> e.coll, ch |-> e.ch, v |-> e.v, var |-> e.var,
             ns |-> e.ns, olds |-> e.olds, msg |-> e.msg, fk |-> e.fk, fa |-> e.fa]
-RecsOf(e) == IF e.op = "getPos"
+RecsOf(e) == IF e.op \in {"getPos", "getPosC"}
              THEN {[task |-> r.task, coll |-> r.coll, name |-> r.name, p |-> ToSet(r.p), o |-> ToSet(r.o), g |-> ToSet(r.g)] : r \in ToSet(e.recs)}
              ELSE ToSet(e.recs)
 ResOf(e) == [err |-> e.err, inj |-> e.inj, un |-> e.un, n |-> e.n, recs |-> RecsOf(e)]
